@@ -336,6 +336,9 @@ func recordFaults(r *vlib.Run) {
 					vals[v] = true
 				}
 				vals[int(raw[p]^1)], vals[int(raw[p]+1)], vals[int(raw[p]-1)], vals[0xff] = true, true, true, true
+				for _, op := range []byte("().NKMJI]aeu}t\x85\x86\x87\x8c\x8dXCB\x8e\x8f\x90\x91\x93\x94hj\x81\x88\x89\x8aGq\x80\x95") {
+					vals[int(op)] = true // every opcode in the place of every byte (one value kind read as another)
+				}
 			}
 			delete(vals, int(raw[p]))
 			var vs []int
@@ -360,6 +363,13 @@ func recordFaults(r *vlib.Run) {
 					rec["stamp"] = sedits[c.pos].stamp
 					m, _ = json.Marshal(rec)
 					fmt.Println("DEBUG edit:", c.edit)
+				} else if c.kind == "stampbyte" {
+					raw := append([]byte{}, stampRaw[c.file]...)
+					raw[c.pos] = byte(c.val)
+					var rec map[string]any
+					json.Unmarshal(m, &rec)
+					rec["stamp"] = base64.StdEncoding.EncodeToString(raw)
+					m, _ = json.Marshal(rec)
 				} else {
 					m[c.pos] = byte(c.val)
 				}
@@ -419,6 +429,11 @@ func recordFaults(r *vlib.Run) {
 		case "stampbyte":
 			raw := append([]byte{}, stampRaw[c.file]...)
 			raw[c.pos] = byte(c.val)
+			if declaredTooLong(raw) {
+				// outside the property's quantifier (declared lengths bounded by the input size)
+				r.Add("record_faults_skipped_precondition", 1)
+				return
+			}
 			var rec map[string]any
 			json.Unmarshal(o, &rec)
 			rec["stamp"] = base64.StdEncoding.EncodeToString(raw)
